@@ -19,7 +19,11 @@
              `Some(<item value>)` in the loop over the changed map, and is followed on every path by
              `Event::notify` on the same entry (streams report the change)
   P-WHO      PropertyValue.value is written only by update_cache (the single consumer that applies messages in
-             receive order) and the derived Default
+             receive order) and the derived Default. FAILS on the unchanged tree: PropertyChanged::get_raw stores
+             the reply of a `Get` call into the cache after an await, unordered with the cache task (finding).
+
+Recognised idioms: the interface filter must be an `==` / `!=` between InterfaceName values (either polarity, `if`,
+`match` on the bool, early `continue`); a comparison through `as_str()` or inside a helper fails closed.
 
 Not decided: the ordering guarantees of ordered_stream::join / take_buffered, the match rule built by the
 generated receive_properties_changed, value conversion (OwnedValue::try_from failures skip an update).
@@ -113,7 +117,9 @@ def check_order(ctx, f):
         where = "%s:%d" % (init.file, ln)
         l0 = mir.op_local(tup[4][0])
         ctx.ob("P-ORDER", "returned-stream-is-the-subscription", l0 in der,
-               "the stream init returns derives from the subscription made before GetAll", where)
+               "the stream init returns derives from the subscription made before GetAll" if l0 in der else
+               "the stream init returns does not derive from a subscription completed before GetAll (changes between the "
+               "snapshot and a later subscription are lost)", where)
         for op in tup[4]:
             if "HashSet" in local_ty(init, mir.op_local(op)):
                 src = af.param_source(f, init, op)
@@ -231,7 +237,8 @@ def check_sites(ctx, f):
         # ---- interface filter controlling the call
         found = False
         for sb, cc, tt, ft, neg in mir.call_bool_switches(body):
-            if not (cc.is_("eq", "ne") and "InterfaceName" in cc.callee) or len(cc.args) < 2 or tt == ft:
+            # a defaulted `ne` resolves to core::cmp::PartialEq::ne: look at declared callee / generic args too
+            if not (cc.is_("eq", "ne") and "InterfaceName" in (cc.callee + cc.declared + cc.fnargs)) or len(cc.args) < 2 or tt == ft:
                 continue
             if cc.is_("ne"):
                 tt, ft = ft, tt
